@@ -378,7 +378,7 @@ loop_inv(G + ":GaussianModes.add_mode#0", inv=_addmode_outer)
 loop_inv(G + ":GaussianModes.add_mode#1", inv=_addmode_inner)
 
 
-@proof(["C01", "C05", "C08"], G + ":GaussianModes.add_mode",
+@proof(["C01", "C05", "C07", "C08"], G + ":GaussianModes.add_mode",
        native="from native.c01_gaussian import replay; replay('add_mode', OBLIGATION, I)")
 def _add_mode(h):
     s = mk(h)
